@@ -7,6 +7,7 @@
    not disturb each other through the runtime is exercised on the real daemons by the `daemon`
    correspondence stream (whose oracle is the property itself), not proved. *)
 From CFDP Require Import Base.Prelude Model.Daemon Proofs.DaemonP.
+From CFDP Require Import Model.Timer Model.TxTypes Model.Recv Model.Send Proofs.HeaderP Proofs.RecvHeaderP.
 
 (* identifiers: up to 2^(8w) consecutive Put requests get pairwise distinct transaction ids
    (w = width of the sequence number; beyond that the counter wraps by design of VariableID) *)
@@ -68,6 +69,30 @@ Example C11_nonvacuous :
   d_forward true 1 2 9 false s = (s, DUnable, None).
 Proof. vm_compute. auto. Qed.
 
+(* what a transaction puts on the link (Model/Recv.v, Model/Send.v): EVERY PDU a receive
+   transaction emits, in any state and after any operation, is directed to the file sender and
+   handed to the transport of ITS OWN source entity; every PDU a send transaction emits is
+   directed to the file receiver and handed to the transport of its own destination entity; both
+   announce the length of their own payload, and the configuration (entity ids, sequence number
+   widths, flags) a transaction was created with never changes - a transaction never addresses
+   another entity or impersonates the other direction *)
+Theorem C11_receiver_addresses_only_its_peer : forall FS fs_write_file fs_exec resp_fail not_performed cksum
+  resp_len req_len cfg now o (s : rstate FS),
+  RH FS resp_len req_len cfg s ->
+  RH FS resp_len req_len cfg (fst (rstep FS fs_write_file fs_exec resp_fail not_performed cksum resp_len req_len now o s)).
+Proof. exact RH_rstep. Qed.
+Theorem C11_receiver_addresses_initial : forall FS resp_len req_len cfg now np (fs : FS),
+  RH FS resp_len req_len cfg (r_new now cfg np fs).
+Proof. exact RH_init. Qed.
+Theorem C11_sender_addresses_only_its_peer : forall cksum resp_len req_len cfg now o s,
+  HD resp_len req_len cfg s -> HD resp_len req_len cfg (fst (sstep cksum resp_len req_len now o s)).
+Proof. exact HD_sstep. Qed.
+Check (fun FS resp_len req_len cfg (s : rstate FS) (H : RH FS resp_len req_len cfg s) => H :
+  r_cfg s = cfg /\ Forall (fun o => match o with
+                                    | OPdu p => o_to_receiver p = false /\ o_dest p = cfg_src cfg /\
+                                                o_len p = payload_len cfg resp_len req_len (o_payload p)
+                                    | OInd _ => True end) (r_out s)).
+
 Print Assumptions C11_put_ids_distinct.
 Print Assumptions C11_put_counter.
 Print Assumptions C11_forward_frame.
@@ -76,3 +101,6 @@ Print Assumptions C11_no_transport_discarded.
 Print Assumptions C11_unknown_to_receiver_spawns.
 Print Assumptions C11_command_frame.
 Print Assumptions C11_cleanup_only_removes.
+Print Assumptions C11_receiver_addresses_only_its_peer.
+Print Assumptions C11_receiver_addresses_initial.
+Print Assumptions C11_sender_addresses_only_its_peer.
